@@ -276,14 +276,19 @@ func (y *YangType) Equal(t *YangType) bool {
 		len(y.Range) != len(t.Range),
 		!y.Range.Equal(t.Range),
 		!tsEqual(y.Type, t.Type),
-		!cmp.Equal(y.Enum, t.Enum, cmp.Comparer(func(t, u EnumType) bool {
-			return cmp.Equal(t.unique, u.unique) && cmp.Equal(t.ToInt, u.ToInt) && cmp.Equal(t.ToString, u.ToString)
-		})):
+		!cmp.Equal(y.Enum, t.Enum, cmp.Comparer(enumTypeEqual)),
+		!cmp.Equal(y.Bit, t.Bit, cmp.Comparer(enumTypeEqual)):
 
 		return false
 	}
-	// TODO(borman): Base, Bit
+	// TODO(borman): Base
 	return true
+}
+
+// enumTypeEqual returns true if t and u hold the same names with the same
+// values.
+func enumTypeEqual(t, u EnumType) bool {
+	return cmp.Equal(t.unique, u.unique) && cmp.Equal(t.ToInt, u.ToInt) && cmp.Equal(t.ToString, u.ToString)
 }
 
 // typedef returns a Typedef created from y for insertion into the BaseTypedefs
